@@ -133,10 +133,11 @@ func (c *c08Ctx) decode(in []byte, m c08Mode, op string) (x reflect.Value, err e
 	}
 	if rd == nil {
 		// the caller's one receive buffer: same address, new content every time
-		if cap(c08Arena) < len(in) {
+		if cap(c08Arena) < len(in)+8 {
 			c08Arena = make([]byte, 2*len(in)+64)
 		}
-		buf := c08Arena[:len(in):len(in)]
+		off := (c.calls & 1) * 3
+		buf := c08Arena[off : off+len(in) : off+len(in)]
 		copy(buf, in)
 		in = buf
 	}
